@@ -90,8 +90,6 @@ impl TestRunnerAdapter {
                                     .iter()
                                     .any(|bp| bp.range.start <= pc && bp.range.end > pc)
                                 {
-                                    #[cfg(mos_verif)]
-                                    crate::verif_hooks::point_mutex("m:state.lock2", &thread_state);
                                     let old = *state;
                                     let new = MachineRunningState::Stopped(pc);
                                     *state = new;
@@ -273,6 +271,8 @@ impl MachineAdapter for TestRunnerAdapter {
 
     fn pause(&mut self) -> MosResult<()> {
         // Lock the state first: once we have it the machine thread is in between two instructions and stays there
+        #[cfg(mos_verif)]
+        crate::verif_hooks::point_mutex("s:pause.state", &self.state);
         let mut state = self.state.lock().unwrap();
         #[cfg(mos_verif)]
         crate::verif_hooks::point_read("s:pause.read", &self.runner);
